@@ -21,6 +21,8 @@ import (
 	"verif/props/c12"
 	"verif/props/c13"
 	"verif/props/c18"
+	"verif/props/c19"
+	"verif/props/c20"
 )
 
 var registry = map[string]func(fw.Config, *fw.Rec){
@@ -38,6 +40,8 @@ var registry = map[string]func(fw.Config, *fw.Rec){
 	"C12": c12.Run,
 	"C13": c13.Run,
 	"C18": c18.Run,
+	"C19": c19.Run,
+	"C20": c20.Run,
 }
 
 func main() {
